@@ -13,5 +13,5 @@ def run(ctx):
     for sch in schemes:
         beaconnet.run(ctx, "C02", scheme=sch)
     # chain repair (ReSync) interrupted between two store operations must not lose a stored round
-    syncclient.run_repair_abort(ctx, {"RepairLosesRound"})
+    syncclient.run_repair_abort(ctx, {"RepairLosesRound", "WritesAboveHead"})
     ctx.assumptions += ["BLS signatures are unique per (key, message), so two valid beacons of a round are byte-identical (checked on traces by digest)"]
